@@ -261,7 +261,8 @@ def iter_rate(key, shape, ranks=None, scores=None, cfg=None, call=None, opts=Non
 
     def run_with(mkf):
         m, teams = build_game(Model, shape, mkf, **cfg)
-        kw = dict(call)
+        # a call argument written 'sym:<name>' is resolved through the value maker (symbolic or concrete)
+        kw = {k: (mkf(v[4:]) if isinstance(v, str) and v.startswith('sym:') else v) for k, v in call.items()}
         if ranks is not None:
             kw['ranks'] = list(ranks)
         if scores is not None:
@@ -334,7 +335,7 @@ def rate_float(key, shape, inputs, ranks=None, scores=None, cfg=None, call=None)
     """plain float run of the real code (used by replays; clean interpreter)"""
     Model = model_class(key)
     m, teams = build_game(Model, shape, float_maker(inputs), **(cfg or {}))
-    kw = dict(call or {})
+    kw = {k: (float(inputs[v[4:]]) if isinstance(v, str) and v.startswith('sym:') else v) for k, v in (call or {}).items()}
     if ranks is not None:
         kw['ranks'] = list(ranks)
     if scores is not None:
